@@ -703,11 +703,11 @@ class C11(Check):
         if thorough: small = [[list(c)] for c in itertools.product([1, 2, 5, None], repeat=1)] + small + two[4:]
         for op in ('env2_scale', 'env2_impute'):
             for cont in ('list', 'sparse', 'scalar'):
-                for A in small:
-                    for B in small:
+                for ia, A in enumerate(small):
+                    for ib, B in enumerate(small):
                         if A == B or (cont == 'scalar' and len(A) + len(B) > 2): continue
                         yield {'op': op, 'cont': cont, 'seq': [A, B], 'pset': 'reduced'}
-                        if thorough and A < B: yield {'op': op, 'cont': cont, 'seq': [A, B, A], 'pset': 'reduced'}
+                        if thorough and ia < ib: yield {'op': op, 'cont': cont, 'seq': [A, B, A], 'pset': 'reduced'}
 
     def param_space(self, case):
         n = max(len(c[0]) for c in case['seq']) if 'seq' in case else len(case['cols'][0])
